@@ -270,6 +270,13 @@ void run(Ctx &ctx, const std::string &w) {
             return;
         }
     }
+    if (!againOk && canon.size() >= MAX_URL) {
+        // percent-encoding made the canonical form longer than the parser's own limit: the '?' -> %3F expansion is the
+        // same defect as the query key; growth from encoding non-URI characters is normalisation (not judged)
+        if (str(uri.path()).find('?') != std::string::npos) ctx.violation("uri:reparse-path-differs:query", "canonical form grows to " + std::to_string(canon.size()) + " bytes ('?' percent-encoded) and is rejected");
+        else ctx.count("canonical_form_too_long");
+        return;
+    }
     if (!againOk) { ctx.violation("uri:reparse-rejected" + sfx, "canonical form " + vh::show(canon) + " of accepted " + vh::show(c.uri) + " is rejected"); return; }
     if ((AnyP::ProtocolType)again.getScheme() != (AnyP::ProtocolType)uri.getScheme() || str(again.getScheme().image()) != str(uri.getScheme().image()))
         ctx.violation("uri:reparse-scheme-differs", "scheme " + str(uri.getScheme().image()) + " became " + str(again.getScheme().image()) + " via " + vh::show(canon));
